@@ -13,7 +13,7 @@
      group      one nested message {g} + one field (proto2 group / editions DELIMITED message)
      oneof      oneof choice { a, b }         p3opt      Top.maybe + its synthetic oneof
      extrange   one extension range           reserved   Top: 2 ranges + 2 names; TopEnum: 1 range + 1 name
-     default    dflt, ds, db, dd (+ dk with nested)
+     default    dflt, ds, db, dd, di, fi (+ dk with nested)
      required   req      features  implicit   import     d, de          public   dp
      enum       enum TopEnum { 3 values }     extend     2 file-level extensions
      service    messages Req, Resp; service Svc { 2 methods }
@@ -42,7 +42,7 @@ EnumWith(values, ranges, names) == Node(<< <<2, Leaves(values)>>, <<4, Leaves(ra
 
 TopFields(fs) ==
   2 + N("stdopt" \in fs) + 2 * N("nested" \in fs) + N("map" \in fs) + N("group" \in fs) + 2 * N("oneof" \in fs)
-    + N("p3opt" \in fs) + 4 * N("default" \in fs) + N("default" \in fs /\ "nested" \in fs) + N("required" \in fs)
+    + N("p3opt" \in fs) + 6 * N("default" \in fs) + N("default" \in fs /\ "nested" \in fs) + N("required" \in fs)
     + N("features" \in fs) + 2 * N("import" \in fs) + N("public" \in fs)
     + 2 * N("jsoncollide" \in fs) + 2 * N("mapfeatures" \in fs)
 
